@@ -314,6 +314,8 @@ func specLeaf(i int) Hash {
 	h[1] = byte(i >> 8)
 	h[2] = byte(i)
 	h[3] = 0x01
+	h[4] = byte(i >> 16) // zero for the first 65 536 slots: the values used by the small histories are unchanged
+	h[5] = byte(i >> 24)
 	h[31] = byte(i*7 + 1)
 	return h
 }
